@@ -49,6 +49,7 @@ class WriteSingleCoilRequest(ModbusRequest):
         ModbusRequest.__init__(self, **kwargs)
         self.address = address
         self.value = bool(value)
+        self._raw_value = None
 
     def encode(self):
         ''' Encodes write coil request
@@ -67,6 +68,7 @@ class WriteSingleCoilRequest(ModbusRequest):
         '''
         self.address, value = struct.unpack('>HH', data)
         self.value = (value == ModbusStatus.On)
+        self._raw_value = value
 
     def execute(self, context):
         ''' Run a write coil request against a datastore
@@ -74,8 +76,8 @@ class WriteSingleCoilRequest(ModbusRequest):
         :param context: The datastore to request from
         :returns: The populated response or exception message
         '''
-        #if self.value not in [ModbusStatus.Off, ModbusStatus.On]:
-        #    return self.doException(merror.IllegalValue)
+        if self._raw_value not in [None, ModbusStatus.Off, ModbusStatus.On]:
+            return self.doException(merror.IllegalValue)
         if not context.validate(self.function_code, self.address, 1):
             return self.doException(merror.IllegalAddress)
 
